@@ -77,6 +77,10 @@ def _child(conn, task):
         resource.setrlimit(resource.RLIMIT_AS, (MEMORY_NET if hard == resource.RLIM_INFINITY else min(MEMORY_NET, hard), hard))
     except (ImportError, ValueError, OSError):
         pass
+    # a RecursionError that strikes while an interpreter hook runs (Hypothesis' gc callback during a deliberately deep evaluation) cannot be raised and
+    # is reported on stderr as "Exception ignored in ...": that report is noise, the check itself handles the RecursionError of the evaluation
+    default_hook = sys.unraisablehook
+    sys.unraisablehook = lambda u: None if u.exc_type is RecursionError else default_hook(u)
     try:
         conn.send(_worker(task))
     finally:
